@@ -41,6 +41,7 @@ type c13Params struct {
 	Queries   int    `json:"queries"`
 	E2e       int    `json:"e2e"`
 	Capture   bool   `json:"capture"`
+	Paris     bool   `json:"paris"`
 }
 
 type c13Hop struct {
@@ -159,6 +160,8 @@ func c13Trace(raw string) {
 		TCPMethod:         traceroute.TCPMethod(p.TCPMethod),
 		TracerouteQueries: p.Queries,
 		E2eQueries:        p.E2e,
+
+		TCPSynParisTracerouteMode: p.Paris,
 	}
 	res, err := traceroute.NewTraceroute().RunTraceroute(context.Background(), params)
 	if p.Capture {
